@@ -100,6 +100,14 @@ func oddPod(g h.GroupSpec, kind string, node string) *v1.Pod {
 	case "affinity-empty":
 		p.Spec.Affinity = &v1.Affinity{}
 		p.Spec.Containers = []v1.Container{{Name: "c"}}
+	case "na-empty-unselected":
+		p.Spec.NodeSelector = nil
+		p.Spec.Affinity = &v1.Affinity{NodeAffinity: &v1.NodeAffinity{}}
+		p.Spec.Containers = []v1.Container{{Name: "c"}}
+	case "preferred-only-unselected":
+		p.Spec.NodeSelector = map[string]string{"zone": "a"}
+		p.Spec.Affinity = &v1.Affinity{NodeAffinity: &v1.NodeAffinity{PreferredDuringSchedulingIgnoredDuringExecution: []v1.PreferredSchedulingTerm{{Weight: 1}}}}
+		p.Spec.Containers = []v1.Container{{Name: "c"}}
 	case "affinity-partial":
 		p.Spec.Affinity = &v1.Affinity{NodeAffinity: &v1.NodeAffinity{RequiredDuringSchedulingIgnoredDuringExecution: &v1.NodeSelector{NodeSelectorTerms: []v1.NodeSelectorTerm{{}}}}}
 		p.Spec.Containers = []v1.Container{{Name: "c"}}
@@ -141,7 +149,8 @@ func C20Scenarios(tier string) []*h.Scenario {
 		s.Init = func(hh *h.Hist) {
 			a := InitASGs(hh)[0]
 			n1 := hh.W.AddNode(a, sim.NodeOpt{Age: 20 * Q})
-			hh.W.Pods = append(hh.W.Pods, oddPod(g, "norequests", n1.Name), oddPod(g, "nocontainers", n1.Name), oddPod(g, "affinity-empty", n1.Name), oddPod(g, "affinity-partial", ""))
+			hh.W.Pods = append(hh.W.Pods, oddPod(g, "norequests", n1.Name), oddPod(g, "nocontainers", n1.Name), oddPod(g, "affinity-empty", n1.Name), oddPod(g, "affinity-partial", ""),
+				oddPod(g, "na-empty-unselected", n1.Name), oddPod(g, "preferred-only-unselected", ""))
 			hh.W.AddNode(a, sim.NodeOpt{Age: 21 * Q, NoAlloc: true})
 			hh.W.AddNode(a, sim.NodeOpt{Age: 22 * Q, ProviderID: sp("")})
 			hh.W.AddNode(a, sim.NodeOpt{Age: 23 * Q, ProviderID: sp("garbage"), TaintAge: dp(5 * Q)})
@@ -231,6 +240,8 @@ func C20Scenarios(tier string) []*h.Scenario {
 	{
 		g := StdGroup("g1")
 		g.Opts.MinNodes = 0
+		g.Opts.MaxNodeAge = "1h"
+		g.Opts.ScaleOnStarve = true
 		s := &h.Scenario{Name: "c20.zero-capacity", Groups: []h.GroupSpec{g}, Slots: 5, Quantum: Q, MaxEventsPerSlot: 1, FaultOps: c20AllOps}
 		s.Init = func(hh *h.Hist) {
 			a := InitASGs(hh)[0]
